@@ -120,6 +120,19 @@ CHECKS = {
         design_ref="DESIGN.md 5 C30",
         note=NOTE_COMMON + " Equality is by value (NumPy scalar == equal Python scalar, ndarray == equal list, tuple != list); dict keys named '_type' are outside the grammar.",
     ),
+    "C29": dict(
+        text=("TLC explores ArrayOpsModel: every history of <= 2 (thorough 3) structural operations (index expressions with "
+              "None/negative/step/list/mask items and one index too many, squeeze, expand_dims, sum/mean/max over each ensemble "
+              "axis and a base axis, stack, concatenate, arithmetic incl. reflected) from two initial objects with an ordinal and "
+              "a linear ensemble axis (~1e4 histories), checks the abstract state invariants and emits the histories; they are "
+              "replayed on real Waves, Images, DiffractionPatterns, PolarMeasurements and RealSpaceLineProfiles, eager and lazy, "
+              "and ArrayOpsTrace.tla decides after every call: values equal NumPy's on the bare array (comparison bit from the "
+              "harness), one axis entry per dimension, ordinal values / linear offset+sampling of the selected items, item "
+              "metadata moved into metadata, base axes refused."),
+        technique="TLA+ history machine over axis metadata (TLC) + spec-generated operation histories replayed on real array objects + TLC trace validation",
+        design_ref="DESIGN.md 5 C29",
+        note=NOTE_COMMON + " Operations that NumPy/dask refuse on the bare array are not compared; an empty linear axis has no coordinates to compare.",
+    ),
 }
 
 NOT_APPLICABLE = {
